@@ -94,7 +94,7 @@ T = [
  ("R3-C03-remove-tombstone-successor", "C03", "/tmp/seed3/C03-out", "patch2.diff", "demo2_seeded_C03_reorder.rs", "r3-C03b", ["r3-C03b"], "as R2-C17-remove-tombstone-successor (found independently): reached through LevelView::remove during reordering"),
  ("R3-C05-terminal-iterator-unretained", "C05", "/tmp/seed3/C05-out", "patch.diff", "seeded_C05.rs", "r3-C05a", ["r3-C05a"], "MTBDD: enumerating the terminals (Manager::terminals, DOT export) hands out un-counted edges; a terminal referenced once is freed by the next gc and its slot reused"),
  ("R3-C05-edgehashmap-insert-leak", "C05", "/tmp/seed3/C05-out", "patch2.diff", "seeded_C05_2.rs", "r3-C05b", ["r3-C05b", "r3-C05b2"], "DDDMP export of a diagram with a shared node: EdgeHashMap::insert clones the key although it is present; reference counts one too high afterwards, function values right"),
- ("R3-C06-terminal-store-inline-gc", "C06", "/tmp/seed3/C06-out", "patch.diff", "seeded_C06.rs", "r3-C06a", ["r3-C06a"], "MTBDD terminal store exactly full when a new value is requested: the terminal manager collects inline (outside pre_gc/post_gc), the apply cache keeps an edge to a freed terminal whose slot is reused"),
+ ("R3-C06-terminal-store-inline-gc", "C06", "/tmp/seed3/C06-out", "patch.diff", "seeded_C06.rs", "r3-C06a", ["r3-C06a", "r3-C06a2"], "MTBDD terminal store exactly full when a new value is requested: the terminal manager collects inline (outside pre_gc/post_gc), the apply cache keeps an edge to a freed terminal whose slot is reused"),
  ("R3-C06-tryremove-unconditional", "C06", "/tmp/seed3/C06-out", "patch2.diff", "seeded_C06_2.rs", "r3-C06b", ["r3-C06b"], "as R2-C05-zbdd-addvars-frees-node (found independently)"),
  ("R3-C07-terminal-getedge-unlock-before-retain", "C07", "/tmp/seed3/C07-out", "patch.diff", "seeded_C07.rs", "r3-C07a", ["r3-C07a"], "MTBDD: get_edge of a present terminal drops the state mutex before incrementing the count; a collection on another thread frees the terminal in the gap"),
  ("R3-C07-gccount-after-collection", "C07", "/tmp/seed3/C07-out", "patch2.diff", "seeded_C07_2.rs", "r3-C07b", ["r3-C07b", "r3-C07b2", "r3-C07b3"], "gc_count advanced at the end of a collection: during a collection freeing >= 65536 nodes (slots handed back early) another thread reuses node ids while a SatCountCache that memoises every node still holds the old epoch"),
